@@ -158,7 +158,7 @@ def measured_download(addr, name, opts, grace=0.08):
 
 def retransmit_interval(addr, name, T):
     """withholds the ACK of the first DATA and measures when it is sent again"""
-    s = N._sock(timeout=T + 1.5)
+    s = N._sock(timeout=(T or 5) + 7.0)
     tr = N.Transfer()
     try:
         opts = [("timeout", T)] if T else []
@@ -175,7 +175,7 @@ def retransmit_interval(addr, name, T):
         k2, f2, src2 = N.recv(s, tr)
         t2 = time.monotonic()
         if k2 != "DATA" or f2["blk"] != f["blk"]:
-            return None, f"no retransmission within {T or 5}+1.5 s: {k2}"
+            return None, f"no retransmission within {T or 5}+7 s: {k2}"
         s.sendto(N.enc_error(0, b"done"), src)
         return t2 - t1, ""
     finally:
@@ -365,7 +365,14 @@ def run(tier):
                 for T, (dt, why) in zip(Ts, ex.map(lambda T: retransmit_interval(srv.addr, "f700.bin", T), Ts)):
                     evaluations += 1
                     eff = T or 5
-                    if dt is None:
+                    if dt is not None and dt > eff + 1.5:
+                        # far later than acknowledged: a verdict only if it repeats on two serial re-runs
+                        again = [retransmit_interval(srv.addr, "f700.bin", T)[0] for _ in range(2)]
+                        if all(a is not None and a > eff + 1.5 for a in again):
+                            v.violation("C09/retransmit-too-late", f"{cfg}: acknowledged timeout {eff}s but DATA 1 was retransmitted only after {dt:.2f}s / {again[0]:.2f}s / {again[1]:.2f}s (3 of 3 runs)", {"engine": "net", "config": cfg, "T": eff, "measured": [dt] + again})
+                        else:
+                            v.note_inconclusive(f"{cfg}: retransmission for T={eff} arrived after {dt:.2f}s once (re-runs {again})")
+                    elif dt is None:
                         v.note_inconclusive(f"{cfg}: retransmission timing T={eff}: {why}")
                     elif dt < eff - 0.05:
                         v.violation("C09/retransmit-too-early", f"{cfg}: acknowledged timeout {eff}s but DATA 1 was retransmitted after {dt:.3f}s", {"engine": "net", "config": cfg, "T": eff, "measured": dt})
